@@ -436,6 +436,86 @@ fn summary_part(ctx: &Ctx, res: &mut PartResult, maxlen: usize) {
     res.sample(json!({"buckets": "3x20s", "samples_t_ms": [0, 19000, 41000], "snapshot_t_ms": 61000}));
 }
 
+/// The configured quantiles are values like any other configuration value: lists containing NaN, the infinities, values
+/// below 0 and above 1 (documented as clamped to [0, 1]) next to ordinary ones. Whatever the list, every quantile line of
+/// the rendered summary is labelled with a number in [0, 1] and carries a value between the smallest and the largest
+/// sample of the window (up to the sketch's error); _sum and _count cover all samples.
+fn quantile_lists(res: &mut PartResult) {
+    res.engine = "E3 quantile configurations x sample sets through PrometheusBuilder::set_quantiles + render()".into();
+    let mut states = vseq::States::new();
+    let lists: Vec<Vec<f64>> = vec![
+        vec![0.0, 0.5, 1.0],
+        vec![0.5, f64::NAN],
+        vec![f64::NAN],
+        vec![-1.0, 2.0],
+        vec![f64::INFINITY, f64::NEG_INFINITY, 0.25],
+        vec![0.999, 0.9999, 1e-9],
+        vec![-0.0, 1.0],
+    ];
+    let sample_sets: Vec<Vec<f64>> = vec![vec![40.0, 41.0, 42.0, 43.0, 44.0], vec![7.5], vec![-3.0, 1000.0]];
+    let alpha = 0.0001f64;
+    for list in &lists {
+        for samples in &sample_sets {
+            res.executions += 1;
+            res.transitions += samples.len() as u64 + 1;
+            let cfg = json!({"quantiles": format!("{:?}", list), "samples": samples});
+            let b = match PrometheusBuilder::new().set_quantiles(list) {
+                Ok(b) => b,
+                Err(e) => {
+                    // a list the builder refuses is not a configuration; only the empty list is documented as refused
+                    res.violation("summary-quantiles-not-as-configured", format!("set_quantiles({:?}) refused: {}", list, e), cfg);
+                    continue;
+                }
+            };
+            let rec = b.build_recorder();
+            let h = rec.register_histogram(&Key::from_name("s"), &META);
+            for v in samples {
+                h.record(*v);
+            }
+            let text = rec.handle().render();
+            let fams = match promtext::parse(&text) {
+                Ok(f) => f,
+                Err(e) => {
+                    res.violation("malformed-exposition", format!("quantiles {:?}: {} in {:?}", list, e, text), cfg);
+                    continue;
+                }
+            };
+            let f = match fams.iter().find(|f| f.name == "s") {
+                Some(f) => f,
+                None => {
+                    res.violation("summary-sum-or-count-does-not-cover-all-samples", format!("quantiles {:?}: family missing in {:?}", list, text), cfg);
+                    continue;
+                }
+            };
+            let lo = samples.iter().cloned().fold(f64::INFINITY, f64::min);
+            let hi = samples.iter().cloned().fold(f64::NEG_INFINITY, f64::max);
+            let tol = |x: f64| x.abs() * alpha * 2.0 + 1e-9;
+            let mut n_lines = 0;
+            for x in f.samples.iter().filter(|x| x.name == "s") {
+                n_lines += 1;
+                let q = x.label("quantile").and_then(promtext::parse_value);
+                let v = x.value_f64();
+                match q {
+                    Some(q) if (0.0..=1.0).contains(&q) => {
+                        if !(v >= lo - tol(lo) && v <= hi + tol(hi)) {
+                            res.violation("summary-quantile-outside-window-range", format!("quantiles configured {:?}, samples {:?}: the line for quantile {} carries {}, outside [{}, {}]", list, samples, q, v, lo, hi), cfg.clone());
+                        }
+                    }
+                    other => res.violation("summary-quantiles-not-as-configured", format!("quantiles configured {:?} (documented as clamped to [0, 1]): a rendered line is labelled quantile={:?} ({:?}) with value {}", list, x.label("quantile"), other, v), cfg.clone()),
+                }
+            }
+            let cnt: u64 = f.samples.iter().find(|x| x.name == "s_count").and_then(|x| x.value.parse().ok()).unwrap_or(u64::MAX);
+            if cnt != samples.len() as u64 || n_lines == 0 {
+                res.violation("summary-sum-or-count-does-not-cover-all-samples", format!("quantiles {:?}, samples {:?}: count {} with {} quantile lines", list, samples, cnt, n_lines), cfg.clone());
+            }
+            states.add(&(format!("{:?}", list), n_lines));
+        }
+    }
+    res.states = states.len();
+    res.distinct_outcomes = states.len();
+    res.sample(json!({"quantiles": "[0.5, NaN]", "samples": [40, 41, 42, 43, 44], "expected": "every line labelled within [0, 1], value within [40, 44]"}));
+}
+
 /// The same window semantics through the builder: `set_bucket_duration` x `set_bucket_count` (both, either one alone, neither) x `set_quantiles`
 /// -> `build_recorder` -> real handles -> `render()`, with quanta's clock overridden by a mock for the thread.
 fn summary_render(ctx: &Ctx, res: &mut PartResult, maxlen: usize) {
@@ -573,6 +653,7 @@ fn parts(ctx: &Ctx) -> Vec<PartSpec> {
         PartSpec::new("matchers", json!({"p": "m", "n": if q { 2 } else { 3 }})).budget(b),
         PartSpec::new("rolling-summary", json!({"p": "s", "n": if q { 4 } else { 6 }})).budget(b),
         PartSpec::new("summary-render", json!({"p": "sr", "n": if q { 3 } else { 5 }})).budget(b),
+        PartSpec::new("summary-quantile-lists", json!({"p": "ql"})).budget(b),
     ]
 }
 
@@ -585,6 +666,7 @@ fn run(ctx: &Ctx, spec: &PartSpec) -> PartResult {
         "hr" => hist_render(ctx, &mut res, n),
         "m" => matchers_part(ctx, &mut res, n),
         "sr" => summary_render(ctx, &mut res, n),
+        "ql" => quantile_lists(&mut res),
         _ => summary_part(ctx, &mut res, n),
     });
     if let Err(e) = r {
@@ -597,7 +679,7 @@ fn main() {
     driver::main(CheckDef {
         prop: "C15",
         level: "model_checking",
-        rule: "histogram: all ascending bound lists of <= 3 bounds over {-1,0,1,2.5,+inf} (+ a list with a repeated bound, a 12-bound list, {-inf,+inf}) x all sample sequences up to the stated length over {-2,-1,0,0.5,1,2.5,3,NaN,+inf,-inf} x all batchings into record()/record_many() calls on the real storage Histogram, and through render() with renders between batches; matchers: all override sets up to the stated size over {Full,Prefix,Suffix} x {a,ab,b,a.b,1a} with/without global buckets x all names of length <= 3 over {a,b,.,1} (distinct bucket lists identify the winning matcher); rolling summary: all non-decreasing sample timelines up to the stated length over {0,1,d-1,d,d+1,W-d,W-1,W,W+1,2W} x all later snapshot times (millisecond resolution), 6 bucket configurations (3x20s, 1x10s, 2x7s and the fractional 2x1.5s, 4x250ms, 3x2.5s), 2 time bases, under quanta's mock clock; distinct = distinct bucket vectors / (type, winner) / quantile triples",
+        rule: "histogram: all ascending bound lists of <= 3 bounds over {-1,0,1,2.5,+inf} (+ a list with a repeated bound, a 12-bound list, {-inf,+inf}) x all sample sequences up to the stated length over {-2,-1,0,0.5,1,2.5,3,NaN,+inf,-inf} x all batchings into record()/record_many() calls on the real storage Histogram, and through render() with renders between batches; matchers: all override sets up to the stated size over {Full,Prefix,Suffix} x {a,ab,b,a.b,1a} with/without global buckets x all names of length <= 3 over {a,b,.,1} (distinct bucket lists identify the winning matcher); rolling summary: all non-decreasing sample timelines up to the stated length over {0,1,d-1,d,d+1,W-d,W-1,W,W+1,2W} x all later snapshot times (millisecond resolution), 6 bucket configurations (3x20s, 1x10s, 2x7s and the fractional 2x1.5s, 4x250ms, 3x2.5s), 2 time bases, under quanta's mock clock; distinct = distinct bucket vectors / (type, winner) / quantile triples; quantile configurations: 7 lists incl. NaN, the infinities, values below 0 and above 1 x 3 sample sets through set_quantiles + render(): every quantile line labelled within [0, 1] and valued within [min, max] of the samples",
         assumptions: &["matcher reference is on the names as the user writes them; cases where only sanitisation makes a matcher apply are left unjudged", "rolling summary oracle is exactly the property: quantiles within [min,max](1±alpha) of samples newer than now-W; empty allowed only when no sample is newer than now-(W-d)"],
         parts,
         run,
